@@ -46,6 +46,14 @@ long sequences include the reversal, a rotation and the exchange of the first an
 random split of the sequence, block B weighted with the sum of the captured softmax weights inside it
 (theorem ``C20_split_merge``).
 
+WHO CARRIES THE SEQUENCE AXIS (audit E, option ``kT``): the KEY has size 1 at the sequence axis.  With a mask of
+the full length the scores get their T positions from ``masked_fill`` and everything is judged (inside the
+guard ``seqAxisCarried`` of ``C20_broadcast_explicit``).  With a mask of size 1 there, or none, and T > 1 values
+``check_input`` still accepts (jointly broadcastable) but the shape is not a documented one and ``forward``
+returns the SUM of the values (softmax over one score, weight 1 broadcast along the values): such calls are
+run and what the implementation does is RECORDED (``seq_axis_carried_by=nobody ...``), nothing is judged, the
+model is not asked (``seq_carried``).
+
 Correspondence: (a) every element of the broadcast batch (query vector, list of keys, list of
 values, keep flags) goes to the Lean model (``attend`` / ``mhaForwardH``), which also evaluates
 the declarative spec (``attendSpec`` / ``mhaSpecH``); (b) the raw arguments of the call go to the
@@ -407,7 +415,7 @@ def case_shapes(case):
         return [e if f else 1 for e, f in zip(E, flags)]
     bq, bk, bv, bm = bs(case["bq"]), bs(case["bk"]), bs(case["bv"]), bs(case["bm"])
     q = bq + [case["Q"]]
-    k = bk[:nb] + [T] + bk[nb:] + [case["K"]]
+    k = bk[:nb] + [T if case.get("kT", True) else 1] + bk[nb:] + [case["K"]]
     v = bv[:nb] + [T if case.get("vT", True) else 1] + bv[nb:] + [case["D"]]
     m = None
     if case["mask"] != "none":
@@ -645,6 +653,48 @@ def expand_all(case, q, k, v, mask):
     return i, ET, Eb, qf, kf, vf, mf
 
 
+def seq_carried(case, q, k, v, mask):
+    """Do the scores CARRY the sequence axis -- has `key`, or the mask the scores are filled with, the full
+    length T there (Lean: `seqAxisCarried`)?  Documented shapes: key, value and mask all have T.  check_input
+    only asks for joint broadcastability, so it also accepts a key and a mask of size 1 at the sequence axis
+    against T > 1 values; forward then takes the softmax over ONE score (weight 1) and broadcasts it along the
+    values: the result is the SUM of the values.  Such calls are outside the documented shapes (and outside the
+    tensor-level model, whose theorems carry the guard): they are generated, run, and what the implementation
+    does is RECORDED (`seq_axis_carried_by=nobody ...` in the evidence), not judged."""
+    i, ET, _ = geometry(case, q, k, v, mask)
+    te = k.shape[i]
+    if mask is not None:
+        j = i - (k.dim() - 1 - mask.dim())   # axis i of key = axis j of a mask aligned at the last axis
+        if 0 <= j < mask.dim():
+            te = max(te, mask.shape[j])
+    return te == ET[i]
+
+
+def seq_axis_observation(case, mod, q, k, v, mask):
+    """the implementation's behaviour on a call whose scores do not carry the sequence axis (recorded only)"""
+    import torch
+    i, ET, Eb, qf, kf, vf, mf = expand_all(case, q, k, v, mask)
+    with torch.no_grad():
+        try:
+            out = mod(q, k, v, mask)
+        except Exception as exc:  # noqa
+            return {"seqaxis": "raises " + type(exc).__name__, "checks": []}
+        scale = max(1.0, float(v.to(torch.float64).abs().max())) if v.numel() else 1.0
+        tol = 1e-4
+        what = "other"
+        try:
+            if close(out, mod(qf, kf, vf, mf), scale * ET[i], tol) is None:
+                what = "the explicitly expanded call (average over T equal scores)"
+            elif case["kind"] == "single" and close(
+                    out.to(torch.float64), vf.to(torch.float64).sum(i), scale * ET[i], tol) is None:
+                what = "the SUM of the values (one softmax weight 1 broadcast along the sequence axis)"
+            elif case["kind"] == "multi":
+                what = "differs from the explicitly expanded call"
+        except Exception as exc:  # noqa
+            what = "explicit call raises " + type(exc).__name__
+    return {"seqaxis": what, "shape": list(out.shape), "checks": []}
+
+
 def elements(i, ET, qf, kf, vf, mf):
     """Per element of the broadcast batch: (q, keys, values, keep flags)."""
     import torch
@@ -774,7 +824,10 @@ class C20(PropertyCheck):
             "dtype in {float16, bfloat16, float32, float64, int64, int32, int16, int8, uint8, bool}; every "
             "(query dtype, key dtype) pair torch's type promotion admits; value path of multi-headed attention "
             "in float64; a few rejected combinations); dtype, memory layout (strided, transposed, "
-            "expanded views), value-is-key aliasing, mixed dtypes varied in every stream. Integer q/k/v, int/dyadic/float "
+            "expanded views), value-is-key aliasing, mixed dtypes varied in every stream; who carries the sequence axis "
+            "(key of size 1 there x {mask of the full length, all-true mask, mask of size 1, no mask} x flavour x sign "
+            "of dim, 6 % of the free single-head stream; without a full-length mask the call is outside the "
+            "documented shapes and only recorded). Integer q/k/v, int/dyadic/float "
             "parameters. non-trivial: >= 1 masked and >= 2 kept positions in some element of the broadcast "
             "batch; distinct by the full case dict")
     assumptions = [
@@ -950,7 +1003,7 @@ class C20(PropertyCheck):
         pm = rng.choice(["int", "int", "dyadic", "float"]) if flavour != "dot" else "int"
         # legal negative dims are -n+1 .. -2 (axis 0 has no legal negative name)
         neg = neg and nb >= 1
-        return {
+        c = {
             "kind": "single", "flavour": flavour, "dim": nb - n if neg else nb,
             "nb": nb, "E": E, "T": T, "Q": Q, "K": K, "D": rng.randint(1, 3),
             "bq": bq, "bk": bk, "bv": bv, "bm": bm,
@@ -959,6 +1012,35 @@ class C20(PropertyCheck):
             "scale": rng.choice(["1", "1/2", "1/4", "2", "-1"]), "seed": rng.randrange(1 << 30),
             **({"lim": 1} if wide else {}),
         }
+        # now and then the KEY has size 1 at the sequence axis (audit E; drawn from the case's own seed so that
+        # the stream of the other fields is what it was): with a mask that has the full length the scores still
+        # carry the axis; otherwise the call is outside the documented shapes and only recorded (seq_carried)
+        if not wide and random.Random(c["seed"] ^ 0x5EA).random() < 0.06:
+            c["kT"] = False
+        return c
+
+    def _seq_axis_cases(self, rng, tier):
+        """WHO CARRIES THE SEQUENCE AXIS (audit E): key of size 1 there against T > 1 values, every flavour, both
+        signs of dim -- with a mask of the full length (scores carry the axis through the mask: inside the
+        domain, everything is judged), with a mask of size 1 there or without a mask (nobody carries it:
+        outside the documented shapes, what the implementation returns is recorded), and the ordinary
+        size-1 cases next to them (value of size 1, mask of size 1 against a full key)."""
+        for flavour in FLAVOURS:
+            for neg in (False, True):
+                for mask, mT, kT, vT in (("some", True, False, True), ("all", True, False, True),
+                                         ("none", True, False, True), ("some", False, False, True),
+                                         ("some", False, True, True), ("some", True, True, False),
+                                         ("none", True, False, False)):
+                    n = rng.choice([3, 3, 4]) if neg else rng.choice([2, 3, 3, 4])
+                    nb = rng.randint(1 if neg else 0, n - 2)
+                    c = self._single(rng, flavour, n, nb, neg, tier, mask=mask)
+                    c.update({"T": max(3, c["T"]), "mT": mT, "kT": kT, "vT": vT})
+                    yield c
+        for mask, mT in (("some", True), ("none", True)):
+            flags = {k: rng.random() < 0.5 for k in ("wq", "wk", "wv", "wc")}
+            c = self._multi(rng, rng.choice(FLAVOURS), flags, rng.randint(1, 3), False, tier)
+            c.update({"T": max(3, c["T"]), "mask": mask, "mT": mT, "kT": False, "vT": True})
+            yield c
 
     # ---- size-triggered code paths: long sequences, large feature / batch / hidden / head dimensions ----
     WINDOWS = ("tail", "tail", "lastblock", "notlast", "edges", "head")
@@ -986,7 +1068,7 @@ class C20(PropertyCheck):
             c["T"] = size
             while _numel(c["E"]) > (2 if size > 300 else 4):
                 c["E"][rng.randrange(len(c["E"]))] = 1
-            c["mT"] = c["vT"] = True
+            c["mT"] = c["vT"] = c["kT"] = True
         elif axis == "K":
             c["K"] = size
             if flavour == "dot":
@@ -1012,7 +1094,7 @@ class C20(PropertyCheck):
             n, nb = 4, rng.randint(0, 2)
             c.update({"nb": nb, "dim": nb - n if (c["dim"] < 0 and nb >= 1) else nb, "E": [rng.choice([3, 4]), size],
                       "T": rng.choice([31, 32, 33]), "K": 4, "Q": 4 if flavour == "dot" else 3, "D": 8,
-                      "mT": True, "vT": True, "mdrop": 0})
+                      "mT": True, "vT": True, "kT": True, "mdrop": 0})
             for key in ("bq", "bk", "bv", "bm"):
                 c[key] = [1, 1]
         elif axis == "huge":
@@ -1020,7 +1102,7 @@ class C20(PropertyCheck):
             # (convexity, weights, weighted sum, blindness, permutations, split, explicit expansion) judge it
             n, nb = 4, rng.randint(0, 2)
             c.update({"nb": nb, "dim": nb - n if (c["dim"] < 0 and nb >= 1) else nb, "E": [rng.choice([7, 8, 9]), rng.choice([15, 16, 17])],
-                      "T": size, "K": 2, "Q": 2, "D": 4, "mT": True, "vT": True, "mdrop": 0, "nomodel": True})
+                      "T": size, "K": 2, "Q": 2, "D": 4, "mT": True, "vT": True, "kT": True, "mdrop": 0, "nomodel": True})
             c["bq"], c["bk"], c["bv"], c["bm"] = [rng.randint(0, 1), 1], [1, 1], [1, 1], [1, rng.randint(0, 1)]
         T = c["T"]
         c["mask"] = mask or rng.choice(["some", "some", "some", "none", "all"])
@@ -1232,6 +1314,10 @@ class C20(PropertyCheck):
                     yield self._multi(rng, flavour, flags, rng.randint(2, 3), batch_eq, tier, layout="TB")
         for c in self._shape_cases(rng, tier):
             yield c
+        # who carries the sequence axis: key of size 1 there (with / without a mask of the full length)
+        for _ in range(reps):
+            for c in self._seq_axis_cases(rng, tier):
+                yield c
         # large-magnitude stream: every flavour (single and as the heads of multi-headed attention) x
         # every mode x both dtypes, always with a mask that removes something
         for _ in range(reps):
@@ -1369,8 +1455,9 @@ class C20(PropertyCheck):
         except Exception as e:  # noqa
             fails.append([f"explicitly expanded call raised {type(e).__name__}: {e}"[:200], "C20.broadcast"])
             return fails
-        # no mask == all-true mask
-        if mask is None or bool(mask.all()):
+        # no mask == all-true mask (not when the mask is the only argument that carries the sequence axis: the
+        # call without it is outside the documented shapes, see seq_carried)
+        if mask is None or (bool(mask.all()) and seq_carried(case, q, k, v, None)):
             try:
                 alt = mod(q, k, v, None if mask is not None else torch.ones(ET, dtype=torch.bool))
                 # an explicit all-true mask may have a larger shape than the other arguments
@@ -1475,6 +1562,8 @@ class C20(PropertyCheck):
         q, k, v, mask, params = make_inputs(case)
         mod = make_single(params, case["Q"], case["K"], case["dim"], _tdtype(case))
         store = []
+        if not case.get("kT", True) and not seq_carried(case, q, k, v, mask):
+            return seq_axis_observation(case, mod, q, k, v, mask)
         with torch.no_grad():
             try:
                 with capture_softmax(store):
@@ -1564,6 +1653,8 @@ class C20(PropertyCheck):
             obs["checks"].append([f"d_v, out_size = {[mod.d_v, mod.out_size]}, documented {[dv, O]} "
                                   f"(defaults: max(1, value_size // num_heads), value_size)", "C20.multihead.defaults"])
             return obs
+        if not case.get("kT", True) and not seq_carried(case, q, k, v, mask):
+            return {**obs, **seq_axis_observation(case, mod, q, k, v, mask)}
         store, inner_io = [], []
         hook = mod.single_head_attention.register_forward_hook(
             lambda m_, a, o: inner_io.append((a, o)))
@@ -1649,6 +1740,8 @@ class C20(PropertyCheck):
         q, k, v, mask, params = make_inputs(case)
         if (case.get("mixed") or {}).get("m", "bool") != "bool":
             return None  # a mask that is not bool: rejected by masked_fill, nothing to model
+        if not case.get("kT", True) and not seq_carried(case, q, k, v, mask):
+            return None  # the scores do not carry the sequence axis: outside the tensor-level model's guard
         # the model sees the exact contents (every dtype converts exactly to double)
         q, k, v = q.to(torch.float64), k.to(torch.float64), v.to(torch.float64)
         i, ET, Eb, qf, kf, vf, mf = expand_all(case, q, k, v, mask)
@@ -1725,8 +1818,8 @@ class C20(PropertyCheck):
             return out
         if "error" in impl:
             return [f"implementation raised {impl['error']}: {impl.get('message')}"]
-        if "rejected" in impl:
-            return out  # dtypes torch does not combine: outside the domain, nothing to compare
+        if "rejected" in impl or "seqaxis" in impl:
+            return out  # dtypes torch does not combine / sequence axis not carried: outside the domain
         elems = model["elems"]
         A, P, _ = expected_dtypes(case)
         ctol = case_tol(case) / TOL   # 1 unless float16 / bfloat16 is in the chain
@@ -1803,7 +1896,7 @@ class C20(PropertyCheck):
         if "error" in impl:
             return [(f"attention raised {impl['error']} on a legal call: {impl.get('message')}",
                      "C20.raises." + case["kind"])]
-        if "rejected" in impl:
+        if "rejected" in impl or "seqaxis" in impl:
             return fails
         for what, sig in impl.get("checks", []):
             fails.append((what, sig))
@@ -1820,7 +1913,7 @@ class C20(PropertyCheck):
     def nontrivial(self, case, impl):
         if case["kind"] == "shape":
             return case["defect"] not in ("none", "none_bcast")
-        if case["mask"] != "some" or (isinstance(impl, dict) and "rejected" in impl):
+        if case["mask"] != "some" or (isinstance(impl, dict) and ("rejected" in impl or "seqaxis" in impl)):
             return False
         _, _, _, mask, _ = make_inputs(case)
         ms = list(mask.shape)
@@ -1844,6 +1937,17 @@ class C20(PropertyCheck):
             t.append("restriction:inf_at_masked_value->" + ("nan" if impl["inf_masked_value_gives_nan"] else "finite"))
         bc = [n for n in ("bq", "bk", "bv", "bm") if 0 in case[n]]
         t.append("broadcast=" + ("+".join(bc) if bc else "none"))
+        if case.get("kT", True):
+            t.append("seq_axis_carried_by=key")
+        elif isinstance(impl, dict) and "seqaxis" in impl:
+            t.append("seq_axis_carried_by=nobody (key and mask of size 1 there, longer values: outside the "
+                     "documented shapes, recorded only) -> observed: " + impl["seqaxis"])
+        else:
+            q_, k_, v_, m_, _ = make_inputs(case)
+            i_, ET_, _ = geometry(case, q_, k_, v_, m_)
+            t.append("seq_axis_carried_by=" + ("key (all of size 1 there)" if ET_[i_] == 1 else
+                                               "key (stride-0 view)" if k_.shape[i_] == ET_[i_] else
+                                               "mask only (key of size 1 there)"))
         t.append("dtype=" + case.get("dtype", "float32"))
         if case.get("mixed"):
             qn, kn, vn, pn = arg_dtypes(case)
@@ -1919,7 +2023,7 @@ class C20(PropertyCheck):
             for n in ("bq", "bk", "bv", "bm"):
                 c[n] = [1] * len(case["E"])
             yield c
-        for key, val in (("mdrop", 0), ("mT", True), ("vT", True), ("pmode", "int" if case["kind"] == "single" else "dyadic"),
+        for key, val in (("mdrop", 0), ("kT", True), ("mT", True), ("vT", True), ("pmode", "int" if case["kind"] == "single" else "dyadic"),
                          ("bias", False), ("hidden", 1), ("scale", "1")):
             if case.get(key) != val:
                 c = dict(case)
